@@ -1678,10 +1678,17 @@ where
         let initial_base = Self::find_free_base(base, check, state)?;
         let mut new_base = initial_base;
         let mut attempts = 0;
-        const MAX_BASE: u32 = u32::MAX - 256; // Leave room for 256 symbols
+        // A base is a 31-bit value (VALUE_MASK); leave room for 256 symbols below MAX_STATE
+        const MAX_BASE: u32 = 0x7FFF_FFFE - 256;
 
         'search: loop {
-            if attempts > 10000 || new_base > MAX_BASE {
+            if attempts > 10000 {
+                // Every probed base collided. The slots behind the arrays are always free,
+                // so placing the children there cannot fail (it used to be an error, which
+                // made insert fail on tries with more than about 2.5 million slots).
+                new_base = new_base.max(base.len() as u32);
+            }
+            if new_base > MAX_BASE {
                 return Err(ZiporaError::invalid_data("Cannot relocate state in double array"));
             }
             attempts += 1;
